@@ -99,8 +99,56 @@ var kinds = map[string]kind{
 
 var evLevels = []zerolog.Level{zerolog.DebugLevel, zerolog.InfoLevel, zerolog.ErrorLevel, zerolog.NoLevel, zerolog.TraceLevel}
 
+// entry selects how an event is started and finished: "" = WithLevel(..).Msg (the main passes); "named" = the named
+// level method (Debug/Info/Error/Log/Trace) and Msg / Msgf / Send-with-the-same-bytes in rotation; a PanicLevel entry of
+// a level vector is ALWAYS made with lg.Panic() (the only way, short of Fatal, to get an event whose completion runs a
+// `done` callback): the panic is recovered here and must have happened, after the write and its failure were handled.
+var entry = ""
+var emitFails []string
+
 func emit(lg zerolog.Logger, lvl zerolog.Level, i int) {
-	lg.WithLevel(lvl).Int("i", i).Str("pad", strings.Repeat("x", i*3)).Msg("m")
+	pad := strings.Repeat("x", i*3)
+	if lvl == zerolog.PanicLevel {
+		func() {
+			defer func() {
+				if rec := recover(); rec == nil {
+					emitFails = append(emitFails, fmt.Sprintf("event %d: Panic().Msg returned without panicking", i))
+				} else if fmt.Sprint(rec) != "m" {
+					emitFails = append(emitFails, fmt.Sprintf("event %d: Panic().Msg panicked with %v, want the message", i, rec))
+				}
+			}()
+			lg.Panic().Int("i", i).Str("pad", pad).Msg("m")
+		}()
+		return
+	}
+	if entry == "named" {
+		var e *zerolog.Event
+		switch lvl {
+		case zerolog.DebugLevel:
+			e = lg.Debug()
+		case zerolog.InfoLevel:
+			e = lg.Info()
+		case zerolog.ErrorLevel:
+			e = lg.Error()
+		case zerolog.TraceLevel:
+			e = lg.Trace()
+		case zerolog.NoLevel:
+			e = lg.Log()
+		default:
+			e = lg.WithLevel(lvl)
+		}
+		e = e.Int("i", i).Str("pad", pad)
+		switch i % 3 {
+		case 0:
+			e.Msgf("%s", "m")
+		case 1:
+			e.MsgFunc(func() string { return "m" })
+		default:
+			e.Msg("m")
+		}
+		return
+	}
+	lg.WithLevel(lvl).Int("i", i).Str("pad", pad).Msg("m")
 }
 
 // poisonW overwrites the caller's writer list after MultiLevelWriter took it: it must never be called.
@@ -253,6 +301,8 @@ func main() {
 			if panicked != "" {
 				fails = append(fails, "logging call panicked: "+panicked)
 			}
+			fails = append(fails, emitFails...)
+			emitFails = emitFails[:0]
 			for d := 0; d < D; d++ {
 				k := kinds[sh[d]]
 				dd := dests[d]
@@ -321,6 +371,9 @@ func main() {
 			if noHandler {
 				mode += "/no-handler"
 			}
+			if entry != "" {
+				mode += "/entry=" + entry
+			}
 			r.Eval(fmt.Sprint(mode, sh, lv, out, lg2.String(), len(handlerLog)), faults > 0)
 			if len(fails) > 0 {
 				r.Violation("", fmt.Sprint(mode, sh, fails[0][:min(len(fails[0]), 40)]), fmt.Sprintf("%s shape=%v levels=%v outcomes(dest x event; 0 ok,1 error,2 short)=%v: %s", mode, sh, lv, out, strings.Join(fails, "; ")),
@@ -370,6 +423,27 @@ func main() {
 			}
 		}
 	}
+	// entry points: the named level methods with Msgf / MsgFunc / Msg, and Panic() - whose completion callback must not
+	// get in the way of reporting the failed write (wave 21: `done` moved before the error handling)
+	for _, en := range []string{"named", "panic"} {
+		entry = en
+		saved := evLevels
+		if en == "panic" {
+			evLevels = []zerolog.Level{zerolog.PanicLevel, zerolog.InfoLevel}
+		}
+		for _, sh := range shapes2 {
+			for E := 1; E <= 2; E++ {
+				for _, lv := range levelVecs(E, true) {
+					run(sh, lv, false)
+					if len(sh) == 1 {
+						run(sh, lv, true)
+					}
+				}
+			}
+		}
+		evLevels = saved
+	}
+	entry = ""
 	for _, comp := range []string{"sync(multi)", "multi(sync)", "multi(multi)"} {
 		composition = comp
 		for _, sh := range shapes2 {
